@@ -11,7 +11,9 @@ head=$(git -C /repo rev-parse HEAD)
 if [ ! -d "$W" ]; then git -C /repo worktree add -q --detach "$W" "$head" || exit 2; fi
 cd "$W" || exit 2
 git checkout -q -- . && git checkout -q --detach "$head" || exit 2
-git apply "$dir/patch.diff" || { echo "patch does not apply"; exit 2; }
+# a later fix: commit may touch the lines of a seeded change: patch.rebased.diff is the same change on the current tree
+pf="$dir/patch.diff"; [ -f "$dir/patch.rebased.diff" ] && pf="$dir/patch.rebased.diff"
+git apply "$pf" || { echo "patch does not apply"; exit 2; }
 out=$(mktemp)
 # a scratch copy of /verif too: regenerated coq/gen files, evidence and replays of the seeded run stay out of /verif
 V=/var/tmp/verif-seed
